@@ -367,6 +367,7 @@ Proof.
   assert (Hc : forall s5, frq Q s5 (if eff_cancelled s5 (g_scope (groups s5 g)) then s5
                                    else scope_cancel s5 (g_scope (groups s5 g)) false)).
   { intros s5. destruct (eff_cancelled s5 _); [apply frq_refl|apply frq_scope_cancel]. }
+  assert (Hsc : forall s5, frq Q s5 (scope_cancel s5 (g_scope (groups s5 g)) false)) by (intros s5; apply frq_scope_cancel).
   assert (Ha : forall e, frq Q s4 (upd_group s4 g (add_exc t e))) by (intros e; fby_eq).
   destruct (k_done (tasks s0 t)) as [[v|e|e]|].
   - destruct (k_startfut (tasks s0 t)) as [f|]; [|apply frq_refl].
@@ -374,17 +375,17 @@ Proof.
   - destruct (k_startfut (tasks s0 t)) as [f|].
     + destruct (f_st (futs s4 f)).
       * apply frq_fc_nores; intros ? HH; discriminate HH.
-      * destruct (is_cancel e); [apply Hc|]. eapply frq_trans; [apply Ha|apply Hc].
-      * destruct (is_cancel e); [apply Hc|]. eapply frq_trans; [apply Ha|apply Hc].
-      * destruct (is_cancel e); [apply frq_refl|]. eapply frq_trans; [apply Ha|apply Hc].
-    + destruct (is_cancel e); [apply Hc|]. eapply frq_trans; [apply Ha|apply Hc].
+      * destruct (is_cancel e); [apply Hc|]. eapply frq_trans; [apply Ha|apply Hsc].
+      * destruct (is_cancel e); [apply Hc|]. eapply frq_trans; [apply Ha|apply Hsc].
+      * destruct (is_cancel e); [apply frq_refl|]. eapply frq_trans; [apply Ha|apply Hsc].
+    + destruct (is_cancel e); [apply Hc|]. eapply frq_trans; [apply Ha|apply Hsc].
   - destruct (k_startfut (tasks s0 t)) as [f|].
     + destruct (f_st (futs s4 f)).
       * apply frq_fc_nores; intros ? HH; discriminate HH.
-      * destruct (is_cancel e); [apply Hc|]. eapply frq_trans; [apply Ha|apply Hc].
-      * destruct (is_cancel e); [apply Hc|]. eapply frq_trans; [apply Ha|apply Hc].
-      * destruct (is_cancel e); [apply frq_refl|]. eapply frq_trans; [apply Ha|apply Hc].
-    + destruct (is_cancel e); [apply Hc|]. eapply frq_trans; [apply Ha|apply Hc].
+      * destruct (is_cancel e); [apply Hc|]. eapply frq_trans; [apply Ha|apply Hsc].
+      * destruct (is_cancel e); [apply Hc|]. eapply frq_trans; [apply Ha|apply Hsc].
+      * destruct (is_cancel e); [apply frq_refl|]. eapply frq_trans; [apply Ha|apply Hsc].
+    + destruct (is_cancel e); [apply Hc|]. eapply frq_trans; [apply Ha|apply Hsc].
   - destruct (k_startfut (tasks s0 t)) as [f|]; [|apply frq_refl].
     destruct (f_st (futs s4 f)); try apply frq_refl. apply frq_fc_nores; intros ? HH; discriminate HH.
 Qed.
